@@ -35,6 +35,17 @@ type frame struct {
 	frozen map[types.Object]bool
 	parent *frame    // defining frame of a function literal
 	fn     *funcBody // the activation's function (for bare returns)
+	pc     *pcNode   // what is assumed about the parameter on this path
+}
+
+// assume returns the frame on the path where the formula c is pol.
+func (fr *frame) assume(c string, pol bool) *frame {
+	if c == fTT || c == fFF {
+		return fr
+	}
+	n := *fr
+	n.pc = fr.pc.assume(c, pol)
+	return &n
 }
 
 func (fr *frame) lookup(o types.Object) (value, bool) {
@@ -47,7 +58,7 @@ func (fr *frame) lookup(o types.Object) (value, bool) {
 }
 
 func (fr *frame) set(o types.Object, v value) *frame {
-	n := &frame{vars: make(map[types.Object]value, len(fr.vars)+1), frozen: fr.frozen, parent: fr.parent, fn: fr.fn}
+	n := &frame{vars: make(map[types.Object]value, len(fr.vars)+1), frozen: fr.frozen, parent: fr.parent, fn: fr.fn, pc: fr.pc}
 	for k, x := range fr.vars {
 		n.vars[k] = x
 	}
@@ -89,7 +100,18 @@ type sx struct {
 	n     int
 	stack []ast.Node
 	steps int
+	forks int
+	// standard-library packages executed from their source (stdsrc.go)
+	std     map[string]*stdPkg
+	stdPkgs map[*types.Package]bool
+	// inMut counts the activations in which slices may be written in place (sorting and
+	// merging of concrete tables while a package-level initialiser is evaluated)
+	concrete bool
+	executed map[ast.Node]bool // the functions the executor has run (inlined) at least once
+	files    []*ast.File
 }
+
+const maxForks = 4096
 
 type varInit struct {
 	spec *ast.ValueSpec
@@ -111,7 +133,7 @@ func (x *sx) tick(n ast.Node) error {
 func newSx(t *subnetsTr, pkg *types.Package, info *types.Info, files []*ast.File) *sx {
 	x := &sx{t: t, pkg: pkg, info: info, funcs: map[*types.Func]*ast.FuncDecl{}, dupFuncs: map[string]bool{},
 		varInit: map[*types.Var]varInit{}, dupVars: map[string]bool{}, mutated: map[*types.Var]token.Pos{},
-		globals: map[*types.Var]value{}, pendingG: map[*types.Var]bool{}}
+		globals: map[*types.Var]value{}, pendingG: map[*types.Var]bool{}, files: files}
 	seenF, seenV := map[string]bool{}, map[string]bool{}
 	for _, f := range files {
 		for _, d := range f.Decls {
@@ -259,11 +281,15 @@ func (x *sx) global(v *types.Var, at ast.Node) (value, error) {
 	case len(vi.spec.Values) == 0:
 		val, err = x.zero(v.Type(), vi.spec)
 	case len(vi.spec.Values) == len(vi.spec.Names):
-		saveP, saveN, saveS := x.param, x.n, x.stack
-		// initialisers run before any call: there is no parameter in scope
-		x.param, x.stack = nil, nil
+		saveP, saveN, saveS, saveC := x.param, x.n, x.stack, x.concrete
+		// initialisers run before any call: there is no parameter in scope, nothing is
+		// symbolic, and slices are references (see vSeq)
+		x.param, x.stack, x.concrete = nil, nil, true
 		val, err = x.expr(vi.spec.Values[vi.idx], &frame{vars: map[types.Object]value{}})
-		x.param, x.n, x.stack = saveP, saveN, saveS
+		x.param, x.n, x.stack, x.concrete = saveP, saveN, saveS, saveC
+		if err == nil {
+			freeze(val)
+		}
 		if err == nil && vi.spec.Type != nil {
 			val, err = x.convert(val, v.Type(), vi.spec)
 		}
@@ -275,6 +301,166 @@ func (x *sx) global(v *types.Var, at ast.Node) (value, error) {
 	}
 	x.globals[v] = val
 	return val, nil
+}
+
+// hasRef reports whether values of type t can share memory with other values (slices, maps,
+// pointers, …), i.e. whether handing the value out hands out a way to change it.
+func hasRef(t types.Type, seen map[types.Type]bool) bool {
+	if seen[t] {
+		return false
+	}
+	seen[t] = true
+	switch u := t.Underlying().(type) {
+	case *types.Basic:
+		return u.Kind() == types.UnsafePointer
+	case *types.Array:
+		return hasRef(u.Elem(), seen)
+	case *types.Struct:
+		if isNetip(t, "Addr") || isNetip(t, "Prefix") {
+			return false // immutable values
+		}
+		for i := 0; i < u.NumFields(); i++ {
+			if hasRef(u.Field(i).Type(), seen) {
+				return true
+			}
+		}
+		return false
+	}
+	return true
+}
+
+// checkAliases makes sure that the package-level tables the executor read cannot be changed
+// behind its back through an alias: a table whose type shares memory (a slice) may be
+// mentioned only (a) in code the executor ran itself — every write there is either done by
+// the executor too (initialisers) or an error (function bodies) —, or (b) as the operand of
+// len, cap, range or an index expression.  Anything else (passing it to a function the
+// executor never ran, storing it, returning it from an accessor, using it in an init
+// function or in the initialiser of a variable the executor did not need) could hand out
+// the backing array, and is an error.
+func (x *sx) checkAliases() error {
+	watched := map[*types.Var]bool{}
+	for v := range x.globals {
+		if v.Pkg() == x.pkg && hasRef(v.Type(), map[types.Type]bool{}) {
+			watched[v] = true
+		}
+	}
+	if len(watched) == 0 {
+		return nil
+	}
+	var err error
+	for _, f := range x.files {
+		for _, d := range f.Decls {
+			switch d := d.(type) {
+			case *ast.FuncDecl:
+				if x.executed[d] || d.Body == nil {
+					continue
+				}
+				x.scanMentions(d.Body, watched, &err)
+			case *ast.GenDecl:
+				if d.Tok != token.VAR {
+					continue
+				}
+				for _, sp := range d.Specs {
+					vs := sp.(*ast.ValueSpec)
+					for i, val := range vs.Values {
+						done := false
+						if len(vs.Values) == len(vs.Names) {
+							if vo, ok := x.info.Defs[vs.Names[i]].(*types.Var); ok {
+								_, done = x.globals[vo]
+							}
+						}
+						if !done {
+							x.scanMentions(val, watched, &err)
+						}
+					}
+				}
+			}
+		}
+	}
+	return err
+}
+
+func (x *sx) scanMentions(root ast.Node, watched map[*types.Var]bool, err *error) {
+	var stack []ast.Node
+	ast.Inspect(root, func(n ast.Node) bool {
+		if n == nil {
+			stack = stack[:len(stack)-1]
+			return true
+		}
+		if id, ok := n.(*ast.Ident); ok && *err == nil {
+			if v, isVar := x.info.Uses[id].(*types.Var); isVar && watched[v] {
+				okUse := false
+				if len(stack) > 0 {
+					var child ast.Node = id
+					k := len(stack) - 1
+					for ; k >= 0; k-- {
+						if _, isParen := stack[k].(*ast.ParenExpr); !isParen {
+							break
+						}
+						child = stack[k]
+					}
+					if k >= 0 {
+						switch p := stack[k].(type) {
+						case *ast.IndexExpr:
+							okUse = p.X == child
+						case *ast.RangeStmt:
+							okUse = p.X == child
+						case *ast.CallExpr:
+							if fid, isID := p.Fun.(*ast.Ident); isID {
+								if b, isB := x.info.Uses[fid].(*types.Builtin); isB && (b.Name() == "len" || b.Name() == "cap") {
+									okUse = true
+								}
+							}
+						}
+					}
+				}
+				if !okUse {
+					*err = x.errf(id, "the table %s (a slice: it shares its backing array) is used in code the executor does not run, where it could be handed out and changed", v.Name())
+				}
+			}
+		}
+		stack = append(stack, n)
+		return true
+	})
+}
+
+// freeze marks every allocation reachable from a finished initialiser's value as read-only.
+func freeze(v value) {
+	switch q := v.(type) {
+	case vSeq:
+		if q.st != nil {
+			if q.st.frozen {
+				return
+			}
+			q.st.frozen = true
+		}
+		for _, e := range q.elems[:cap(q.elems)] {
+			freeze(e)
+		}
+	case vStruct:
+		for _, e := range q.fields {
+			freeze(e)
+		}
+	case vTuple:
+		for _, e := range q.vals {
+			freeze(e)
+		}
+	}
+}
+
+// writable reports whether the cells of s may be written in place now.
+func (x *sx) writable(s vSeq, at ast.Node) error {
+	switch {
+	case !x.concrete:
+		return x.errf(at, "a slice is written in place while the function runs on the parameter (slices are references only while package-level initialisers are evaluated)")
+	case s.array || s.st == nil:
+		return x.errf(at, "write through a slice of an array variable")
+	case s.st.frozen:
+		return x.errf(at, "an initialiser writes to the table of another package-level variable")
+	case s.st.dead:
+		return x.errf(at, "use of a slice after an append that may have extended it in place (its capacity is not known to the executor)")
+	}
+	return nil
 }
 
 // ---------------------------------------------------------------- zero values, conversions
@@ -331,6 +517,20 @@ func (x *sx) zero(t types.Type, at ast.Node) (value, error) {
 }
 
 func (x *sx) convert(v value, to types.Type, at ast.Node) (value, error) {
+	if c, ok := v.(vCase); ok {
+		l, err := x.convert(c.a, to, at)
+		if err != nil {
+			return nil, err
+		}
+		r, err := x.convert(c.b, to, at)
+		if err != nil {
+			return nil, err
+		}
+		return mkCase(c.cond, l, r), nil
+	}
+	if _, isTP := to.(*types.TypeParam); isTP {
+		return nil, x.errf(at, "conversion to the type parameter %s", to)
+	}
 	if w, signed, ok := intKind(to); ok {
 		src, isW := v.(vWord)
 		if !isW {
@@ -369,7 +569,7 @@ func (x *sx) convert(v value, to types.Type, at ast.Node) (value, error) {
 	case *types.Slice:
 		switch s := v.(type) {
 		case vStr:
-			r := vSeq{typ: to}
+			r := vSeq{typ: to, elems: make([]value, 0, len(s.bs)), st: &sstore{}}
 			for _, b := range s.bs {
 				b.typ = u.Elem()
 				r.elems = append(r.elems, b)
@@ -411,41 +611,118 @@ func (x *sx) convert(v value, to types.Type, at ast.Node) (value, error) {
 
 // ---------------------------------------------------------------- merging (loops only)
 
-func (x *sx) mergeVal(c string, a, b value, at ast.Node) (value, error) {
-	if ba, ok := a.(vBool); ok {
-		if bb, ok := b.(vBool); ok {
-			if ba.f == bb.f {
-				return ba, nil
-			}
-			return vBool{bIte(c, ba.f, bb.f)}, nil
+// mergeVal joins the values a variable has on the two sides of a branch on the parameter;
+// ok is false when they cannot be joined (different non-boolean values: the paths stay
+// forked, so that loop counters and indices remain concrete on each of them).
+func mergeVal(c string, a, b value) (v value, ok bool) {
+	if ba, isB := a.(vBool); isB {
+		if bb, isB := b.(vBool); isB {
+			return vBool{bIte(c, ba.f, bb.f)}, true
 		}
 	}
-	if reflect.DeepEqual(a, b) {
-		return a, nil
+	if sameValue(a, b) {
+		return a, true
 	}
-	return nil, x.errf(at, "a non-boolean variable has different values on the two sides of a branch on the parameter")
+	return nil, false
 }
 
-func (x *sx) mergeFrames(c string, a, b *frame, at ast.Node) (*frame, error) {
+// sameValue is deep equality of values (function values are equal only to themselves).
+func sameValue(a, b value) bool {
+	switch av := a.(type) {
+	case vFunc:
+		bv, ok := b.(vFunc)
+		return ok && av.body.decl == bv.body.decl && av.closed == bv.closed && av.native == nil && bv.native == nil &&
+			len(av.bound) == len(bv.bound) && func() bool {
+			for i := range av.bound {
+				if !sameValue(av.bound[i], bv.bound[i]) {
+					return false
+				}
+			}
+			return true
+		}()
+	case vSeq:
+		bv, ok := b.(vSeq)
+		if !ok || av.array != bv.array || len(av.elems) != len(bv.elems) {
+			return false
+		}
+		for i := range av.elems {
+			if !sameValue(av.elems[i], bv.elems[i]) {
+				return false
+			}
+		}
+		return true
+	case vStruct:
+		bv, ok := b.(vStruct)
+		if !ok || len(av.fields) != len(bv.fields) {
+			return false
+		}
+		for i := range av.fields {
+			if !sameValue(av.fields[i], bv.fields[i]) {
+				return false
+			}
+		}
+		return true
+	case vTuple:
+		bv, ok := b.(vTuple)
+		if !ok || len(av.vals) != len(bv.vals) {
+			return false
+		}
+		for i := range av.vals {
+			if !sameValue(av.vals[i], bv.vals[i]) {
+				return false
+			}
+		}
+		return true
+	case vCase:
+		bv, ok := b.(vCase)
+		return ok && av.cond == bv.cond && sameValue(av.a, bv.a) && sameValue(av.b, bv.b)
+	}
+	return reflect.DeepEqual(a, b)
+}
+
+// mkCase is `if c then a else b` as a value.
+func mkCase(c string, a, b value) value {
+	switch c {
+	case fTT:
+		return a
+	case fFF:
+		return b
+	}
+	if v, ok := mergeVal(c, a, b); ok {
+		return v
+	}
+	if ta, ok := a.(vTuple); ok {
+		if tb, ok := b.(vTuple); ok && len(ta.vals) == len(tb.vals) {
+			r := vTuple{vals: make([]value, len(ta.vals))}
+			for i := range r.vals {
+				r.vals[i] = mkCase(c, ta.vals[i], tb.vals[i])
+			}
+			return r
+		}
+	}
+	return vCase{c, a, b}
+}
+
+func (x *sx) mergeFrames(c string, a, b *frame) *frame {
 	if a == b {
-		return a, nil
+		return a
 	}
 	if a.parent != b.parent || a.fn != b.fn || len(a.vars) != len(b.vars) {
-		return nil, x.errf(at, "branches on the parameter declare different variables")
+		return nil
 	}
-	n := &frame{vars: make(map[types.Object]value, len(a.vars)), frozen: a.frozen, parent: a.parent, fn: a.fn}
+	n := &frame{vars: make(map[types.Object]value, len(a.vars)), frozen: a.frozen, parent: a.parent, fn: a.fn, pc: a.pc.common(b.pc)}
 	for k, va := range a.vars {
 		vb, ok := b.vars[k]
 		if !ok {
-			return nil, x.errf(at, "branches on the parameter declare different variables")
+			return nil
 		}
-		m, err := x.mergeVal(c, va, vb, at)
-		if err != nil {
-			return nil, err
+		m, ok := mergeVal(c, va, vb)
+		if !ok {
+			return nil
 		}
 		n.vars[k] = m
 	}
-	return n, nil
+	return n
 }
 
 // merge joins sibling fall-through leaves bottom-up.
@@ -462,11 +739,9 @@ func (x *sx) merge(o *outcome, at ast.Node) (*outcome, error) {
 		return nil, err
 	}
 	if a.kind == oFall && b.kind == oFall {
-		fr, err := x.mergeFrames(o.cond, a.fr, b.fr, at)
-		if err != nil {
-			return nil, err
+		if fr := x.mergeFrames(o.cond, a.fr, b.fr); fr != nil {
+			return fall(fr), nil
 		}
-		return fall(fr), nil
 	}
 	return &outcome{kind: oIte, cond: o.cond, a: a, b: b}, nil
 }
@@ -537,13 +812,13 @@ func (x *sx) collapse(o *outcome, fb *funcBody, at ast.Node) ([]value, error) {
 		res := make([]value, len(a))
 		for i := range a {
 			if ba, ok := a[i].(vBool); ok {
-				// function results are not folded: `if c { return true }; return false` stays an ite
-				res[i] = vBool{fIte(o.cond, ba.f, b[i].(vBool).f)}
-				continue
+				if bb, ok := b[i].(vBool); ok {
+					// function results are not folded: `if c { return true }; return false` stays an ite
+					res[i] = vBool{splitIte(o.cond, ba.f, bb.f)}
+					continue
+				}
 			}
-			if res[i], err = x.mergeVal(o.cond, a[i], b[i], at); err != nil {
-				return nil, err
-			}
+			res[i] = mkCase(o.cond, a[i], b[i])
 		}
 		return res, nil
 	case oFall:
@@ -578,7 +853,18 @@ func (x *sx) boolExpr(e ast.Expr, fr *frame) (string, error) {
 	if !ok {
 		return "", x.errf(e, "expected a boolean expression")
 	}
-	return b.f, nil
+	return fr.pc.prune(b.f), nil
+}
+
+// fork is `if c then a else b` of two outcomes; every real fork counts against the budget.
+func (x *sx) fork(c string, a, b *outcome, at ast.Node) (*outcome, error) {
+	if c != fTT && c != fFF {
+		x.forks++
+		if x.forks > maxForks {
+			return nil, x.errf(at, "more than %d branches on the parameter while executing one function", maxForks)
+		}
+	}
+	return mkIteO(c, a, b), nil
 }
 
 func (x *sx) assignTo(lhs ast.Expr, v value, fr *frame, define bool) (*frame, error) {
@@ -628,12 +914,20 @@ func (x *sx) assignTo(lhs ast.Expr, v value, fr *frame, define bool) (*frame, er
 			return nil, err
 		}
 		s, ok := old.(vSeq)
-		if !ok || !s.array {
-			return nil, x.errf(lhs, "element assignment to something other than a local array (slices alias their backing array)")
+		if !ok {
+			return nil, x.errf(lhs, "element assignment to something other than an array or a slice")
 		}
 		i, err := x.index(l.Index, len(s.elems), fr)
 		if err != nil {
 			return nil, err
+		}
+		if !s.array {
+			// a slice: written in place, visible through every slice that shares the cell
+			if err := x.writable(s, lhs); err != nil {
+				return nil, err
+			}
+			s.elems[i] = v
+			return fr, nil
 		}
 		ns := vSeq{elems: append([]value{}, s.elems...), typ: s.typ, array: true}
 		ns.elems[i] = v
@@ -848,24 +1142,41 @@ func (x *sx) stmt(s ast.Stmt, fr *frame) (*outcome, error) {
 		if err != nil {
 			return nil, err
 		}
-		th, el := fall(fr), fall(fr)
+		frT, frE := fr.assume(c, true), fr.assume(c, false)
+		// a side no address can reach is not executed
+		if frT.pc != nil && frT.pc.dead {
+			c, frE = fFF, fr
+		} else if frE.pc != nil && frE.pc.dead {
+			c, frT = fTT, fr
+		}
+		th, el := fall(frT), fall(frE)
 		if c != fFF {
-			if th, err = x.block(s.Body.List, fr); err != nil {
+			if th, err = x.block(s.Body.List, frT); err != nil {
 				return nil, err
 			}
 		}
 		if c != fTT && s.Else != nil {
-			if el, err = x.stmt(s.Else, fr); err != nil {
+			if el, err = x.stmt(s.Else, frE); err != nil {
 				return nil, err
 			}
 		}
-		return mkIteO(c, th, el), nil
+		return x.fork(c, th, el, s)
 	case *ast.SwitchStmt:
 		return x.switchStmt(s, fr)
 	case *ast.RangeStmt:
 		return x.rangeStmt(s, fr)
 	case *ast.ForStmt:
 		return x.forStmt(s, fr)
+	case *ast.ExprStmt:
+		// a call evaluated for its effect: the only effects the executor has are in-place
+		// writes to slices while a package-level initialiser is evaluated
+		if _, isCall := ast.Unparen(s.X).(*ast.CallExpr); !isCall {
+			return nil, x.errf(s, "expression statement")
+		}
+		if _, err := x.expr(s.X, fr); err != nil {
+			return nil, err
+		}
+		return fall(fr), nil
 	case *ast.BranchStmt:
 		if s.Label != nil {
 			return nil, x.errf(s, "%s with a label", s.Tok)
@@ -900,7 +1211,7 @@ func (x *sx) switchStmt(s *ast.SwitchStmt, fr *frame) (*outcome, error) {
 		}
 	}
 	type arm struct {
-		cond string
+		list []ast.Expr
 		body []ast.Stmt
 	}
 	var arms []arm
@@ -928,11 +1239,22 @@ func (x *sx) switchStmt(s *ast.SwitchStmt, fr *frame) (*outcome, error) {
 			deflt = cc.Body
 			continue
 		}
+		arms = append(arms, arm{cc.List, cc.Body})
+	}
+	// the first matching arm wins: arm k runs where the earlier conditions are false
+	type done struct {
+		cond string
+		body *outcome
+	}
+	var taken []done
+	cur := fr
+	decided := false
+	for _, a := range arms {
 		cond := ""
-		for _, ce := range cc.List {
+		for _, ce := range a.list {
 			var one string
 			if s.Tag != nil {
-				cv, err := x.expr(ce, fr)
+				cv, err := x.expr(ce, cur)
 				if err != nil {
 					return nil, err
 				}
@@ -940,10 +1262,14 @@ func (x *sx) switchStmt(s *ast.SwitchStmt, fr *frame) (*outcome, error) {
 				if err != nil {
 					return nil, err
 				}
-				one = r.(vBool).f
+				rb, isB := r.(vBool)
+				if !isB {
+					return nil, x.errf(ce, "case expression is not comparable with the tag")
+				}
+				one = cur.pc.prune(rb.f)
 			} else {
 				var err error
-				if one, err = x.boolExpr(ce, fr); err != nil {
+				if one, err = x.boolExpr(ce, cur); err != nil {
 					return nil, err
 				}
 			}
@@ -952,36 +1278,45 @@ func (x *sx) switchStmt(s *ast.SwitchStmt, fr *frame) (*outcome, error) {
 			} else {
 				cond = bOr(cond, one)
 			}
+			if cond == fTT {
+				break
+			}
 		}
-		arms = append(arms, arm{cond, cc.Body})
-	}
-	// first matching arm wins; arms after a constantly true condition are dead
-	live := len(arms)
-	for k, a := range arms {
-		if a.cond == fTT {
-			live = k + 1
-			break
-		}
-	}
-	var res *outcome
-	var err error
-	if live == len(arms) {
-		if res, err = x.block(deflt, fr); err != nil {
-			return nil, err
-		}
-	}
-	for k := live - 1; k >= 0; k-- {
-		if arms[k].cond == fFF {
+		if cond == fFF {
 			continue
 		}
-		body, err := x.block(arms[k].body, fr)
+		if on := cur.assume(cond, true); on.pc != nil && on.pc.dead {
+			continue
+		}
+		if off := cur.assume(cond, false); off.pc != nil && off.pc.dead {
+			cond = fTT
+		}
+		body, err := x.block(a.body, cur.assume(cond, true))
 		if err != nil {
 			return nil, err
 		}
+		taken = append(taken, done{cond, body})
+		if cond == fTT {
+			decided = true
+			break
+		}
+		cur = cur.assume(cond, false)
+	}
+	var res *outcome
+	if !decided {
+		var err error
+		if res, err = x.block(deflt, cur); err != nil {
+			return nil, err
+		}
+	}
+	for k := len(taken) - 1; k >= 0; k-- {
 		if res == nil {
-			res = body
-		} else {
-			res = mkIteO(arms[k].cond, body, res)
+			res = taken[k].body
+			continue
+		}
+		var err error
+		if res, err = x.fork(taken[k].cond, taken[k].body, res, s); err != nil {
+			return nil, err
 		}
 	}
 	return res, nil
@@ -1106,12 +1441,9 @@ func (x *sx) forStmt(s *ast.ForStmt, fr *frame) (*outcome, error) {
 // ---------------------------------------------------------------- calls
 
 // call inlines fb on args (recv first if it is a method).
-func (x *sx) call(fb funcBody, closed *frame, args []value, at ast.Node) (value, error) {
+func (x *sx) call(fb funcBody, closed *frame, args []value, at ast.Node, pc *pcNode) (value, error) {
 	if fb.body == nil {
 		return nil, x.errf(at, "%s has no body", fb.name)
-	}
-	if fb.typ.TypeParams != nil {
-		return nil, x.errf(at, "%s is generic", fb.name)
 	}
 	for _, n := range x.stack {
 		if n == fb.decl {
@@ -1123,9 +1455,13 @@ func (x *sx) call(fb funcBody, closed *frame, args []value, at ast.Node) (value,
 	}
 	x.stack = append(x.stack, fb.decl)
 	defer func() { x.stack = x.stack[:len(x.stack)-1] }()
+	if x.executed == nil {
+		x.executed = map[ast.Node]bool{}
+	}
+	x.executed[fb.decl] = true
 
 	fbc := fb
-	fr := &frame{vars: map[types.Object]value{}, frozen: map[types.Object]bool{}, parent: closed, fn: &fbc}
+	fr := &frame{vars: map[types.Object]value{}, frozen: map[types.Object]bool{}, parent: closed, fn: &fbc, pc: pc}
 	var params []*ast.Ident
 	var ptypes []ast.Expr
 	if fb.recv != nil {
@@ -1141,9 +1477,10 @@ func (x *sx) call(fb funcBody, closed *frame, args []value, at ast.Node) (value,
 			}
 		}
 	}
+	variadic := false
 	for _, f := range fb.typ.Params.List {
 		if _, isVar := f.Type.(*ast.Ellipsis); isVar {
-			return nil, x.errf(at, "%s is variadic", fb.name)
+			variadic = true
 		}
 		if len(f.Names) == 0 {
 			params, ptypes = append(params, nil), append(ptypes, f.Type)
@@ -1151,6 +1488,20 @@ func (x *sx) call(fb funcBody, closed *frame, args []value, at ast.Node) (value,
 		for _, id := range f.Names {
 			params, ptypes = append(params, id), append(ptypes, f.Type)
 		}
+	}
+	if call, isCall := at.(*ast.CallExpr); variadic && !(isCall && call.Ellipsis.IsValid()) {
+		// f(a, b, xs…): the extra arguments arrive as a fresh slice
+		k := len(params) - 1
+		if len(args) < k {
+			return nil, x.errf(at, "call of %s with %d arguments", fb.name, len(args))
+		}
+		var st types.Type
+		if tv, ok := x.info.Types[ptypes[k]]; ok {
+			st = tv.Type
+		}
+		rest := vSeq{elems: make([]value, 0, len(args)-k), typ: st, st: &sstore{exact: true}}
+		rest.elems = append(rest.elems, args[k:]...)
+		args = append(append([]value{}, args[:k]...), rest)
 	}
 	if len(params) != len(args) {
 		return nil, x.errf(at, "call of %s with %d arguments", fb.name, len(args))
@@ -1165,7 +1516,8 @@ func (x *sx) call(fb funcBody, closed *frame, args []value, at ast.Node) (value,
 		}
 		v := args[i]
 		if tv, ok := x.info.Types[ptypes[i]]; ok && tv.Type != nil {
-			if _, isIface := tv.Type.Underlying().(*types.Interface); isIface {
+			_, isTP := tv.Type.(*types.TypeParam)
+			if _, isIface := tv.Type.Underlying().(*types.Interface); isIface && !isTP {
 				return nil, x.errf(at, "parameter %s of %s has an interface type", id.Name, fb.name)
 			}
 		}
@@ -1194,7 +1546,8 @@ func (x *sx) call(fb funcBody, closed *frame, args []value, at ast.Node) (value,
 		return nil, err
 	}
 	if nres == 0 {
-		return nil, x.errf(at, "call of %s, which returns nothing", fb.name)
+		// a function without results may also end by reaching the end of its body
+		o = relabel(o, oFall, oRet)
 	}
 	vals, err := x.collapse(o, &fbc, at)
 	if err != nil {
@@ -1206,15 +1559,18 @@ func (x *sx) call(fb funcBody, closed *frame, args []value, at ast.Node) (value,
 	if nres == 1 {
 		return vals[0], nil
 	}
-	return vTuple{vals}, nil
+	return vTuple{vals}, nil // (the empty tuple for a function without results)
 }
 
 func (x *sx) declBody(fo *types.Func, at ast.Node) (funcBody, error) {
 	fd := x.funcs[fo]
-	if fd == nil || fo.Pkg() != x.pkg {
+	if fd == nil || (fo.Pkg() != x.pkg && !x.stdPkgs[fo.Pkg()]) {
 		return funcBody{}, x.errf(at, "call of %s, which is not a function of this package", fo.FullName())
 	}
 	key := fd.Name.Name
+	if fo.Pkg() != x.pkg {
+		return funcBody{name: fo.FullName(), typ: fd.Type, body: fd.Body, recv: fd.Recv, decl: fd}, nil
+	}
 	if fd.Recv != nil && len(fd.Recv.List) == 1 {
 		key = types.ExprString(fd.Recv.List[0].Type) + "." + key
 	}
@@ -1269,12 +1625,7 @@ func (x *sx) bytePredicate(fd *ast.FuncDecl) (int, bool) {
 }
 
 func (x *sx) callExpr(e *ast.CallExpr, fr *frame) (value, error) {
-	if e.Ellipsis.IsValid() {
-		// only append(a, b...) is supported, handled below
-		if id := identOf(e.Fun); id == nil || id.Name != "append" {
-			return nil, x.errf(e, "call with a spread argument")
-		}
-	}
+	// f(xs...) passes the slice itself as the variadic parameter (see call)
 	// conversion
 	if tv, ok := x.info.Types[e.Fun]; ok && tv.IsType() {
 		if len(e.Args) != 1 {
@@ -1302,6 +1653,18 @@ func (x *sx) callExpr(e *ast.CallExpr, fr *frame) (value, error) {
 	case *ast.Ident:
 		switch o := x.info.Uses[f].(type) {
 		case *types.Builtin:
+			if o.Name() == "make" && len(e.Args) >= 2 {
+				// the first argument is a type
+				args := []value{nil}
+				for _, a := range e.Args[1:] {
+					v, err := x.expr(a, fr)
+					if err != nil {
+						return nil, err
+					}
+					args = append(args, v)
+				}
+				return x.builtin("make", e, args)
+			}
 			args, err := evalArgs()
 			if err != nil {
 				return nil, err
@@ -1326,7 +1689,7 @@ func (x *sx) callExpr(e *ast.CallExpr, fr *frame) (value, error) {
 					if err != nil {
 						return nil, err
 					}
-					return x.call(fb, nil, []value{a}, e)
+					return x.call(fb, nil, []value{a}, e, fr.pc)
 				}
 			}
 			fb, err := x.declBody(o, e)
@@ -1337,13 +1700,13 @@ func (x *sx) callExpr(e *ast.CallExpr, fr *frame) (value, error) {
 			if err != nil {
 				return nil, err
 			}
-			return x.call(fb, nil, args, e)
+			return x.call(fb, nil, args, e, fr.pc)
 		case *types.Var:
 			fv, err := x.expr(f, fr)
 			if err != nil {
 				return nil, err
 			}
-			return x.callValue(fv, e, evalArgs)
+			return x.callValue(fv, e, evalArgs, fr.pc)
 		}
 		return nil, x.errf(e, "call of %s", f.Name)
 	case *ast.FuncLit:
@@ -1351,7 +1714,7 @@ func (x *sx) callExpr(e *ast.CallExpr, fr *frame) (value, error) {
 		if err != nil {
 			return nil, err
 		}
-		return x.callValue(fv, e, evalArgs)
+		return x.callValue(fv, e, evalArgs, fr.pc)
 	case *ast.SelectorExpr:
 		// package-qualified function
 		if id := identOf(f.X); id != nil {
@@ -1360,7 +1723,7 @@ func (x *sx) callExpr(e *ast.CallExpr, fr *frame) (value, error) {
 				if err != nil {
 					return nil, err
 				}
-				return x.stdFunc(pn.Imported().Path(), f.Sel.Name, e, args)
+				return x.stdFunc(pn.Imported().Path(), f.Sel.Name, e, args, fr.pc)
 			}
 		}
 		sel := x.info.Selections[f]
@@ -1368,12 +1731,12 @@ func (x *sx) callExpr(e *ast.CallExpr, fr *frame) (value, error) {
 			return nil, x.errf(e, "unresolved selector %s", f.Sel.Name)
 		}
 		switch sel.Kind() {
-		case types.FieldVal:
+		case types.FieldVal, types.MethodExpr:
 			fv, err := x.expr(f, fr)
 			if err != nil {
 				return nil, err
 			}
-			return x.callValue(fv, e, evalArgs)
+			return x.callValue(fv, e, evalArgs, fr.pc)
 		case types.MethodVal:
 			mo := sel.Obj().(*types.Func)
 			recvT := sel.Recv()
@@ -1409,22 +1772,41 @@ func (x *sx) callExpr(e *ast.CallExpr, fr *frame) (value, error) {
 			if err != nil {
 				return nil, err
 			}
-			return x.call(fb, nil, append([]value{recv}, args...), e)
+			return x.call(fb, nil, append([]value{recv}, args...), e, fr.pc)
 		}
 	}
 	return nil, x.errf(e, "call of %T", fun)
 }
 
-func (x *sx) callValue(fv value, e *ast.CallExpr, evalArgs func() ([]value, error)) (value, error) {
-	f, ok := fv.(vFunc)
-	if !ok {
-		return nil, x.errf(e, "call of something that is not a function of this package")
-	}
+func (x *sx) callValue(fv value, e *ast.CallExpr, evalArgs func() ([]value, error), pc *pcNode) (value, error) {
 	args, err := evalArgs()
 	if err != nil {
 		return nil, err
 	}
-	return x.call(f.body, f.closed, args, e)
+	return x.apply(fv, args, e, pc)
+}
+
+// apply calls a function value (inlined at this call, on the path pc).
+func (x *sx) apply(fv value, args []value, at ast.Node, pc *pcNode) (value, error) {
+	switch f := fv.(type) {
+	case vFunc:
+		if f.native != nil {
+			return f.native(args, at)
+		}
+		return x.call(f.body, f.closed, append(append([]value{}, f.bound...), args...), at, pc)
+	case vCase:
+		// which function is called depends on the parameter: call both
+		a, err := x.apply(f.a, args, at, pc.assume(f.cond, true))
+		if err != nil {
+			return nil, err
+		}
+		b, err := x.apply(f.b, args, at, pc.assume(f.cond, false))
+		if err != nil {
+			return nil, err
+		}
+		return mkCase(f.cond, a, b), nil
+	}
+	return nil, x.errf(at, "call of something that is not a function of this package")
 }
 
 func (x *sx) builtin(name string, e *ast.CallExpr, args []value) (value, error) {
@@ -1450,25 +1832,141 @@ func (x *sx) builtin(name string, e *ast.CallExpr, args []value) (value, error) 
 			if !ok || s.array {
 				break
 			}
-			r := vSeq{elems: append([]value{}, s.elems...), typ: s.typ}
+			var add []value
 			if e.Ellipsis.IsValid() {
 				if len(args) != 2 {
 					break
 				}
 				switch t := args[1].(type) {
 				case vSeq:
-					r.elems = append(r.elems, t.elems...)
+					add = t.elems
 				case vStr:
 					for _, b := range t.bs {
-						r.elems = append(r.elems, b)
+						add = append(add, b)
 					}
 				default:
 					return nil, x.errf(e, "append of a spread %T", args[1])
 				}
+			} else {
+				add = args[1:]
+			}
+			n := len(s.elems)
+			if !x.concrete {
+				// symbolic mode: slices are values
+				r := vSeq{elems: make([]value, 0, n+len(add)), typ: s.typ}
+				r.elems = append(append(r.elems, s.elems...), add...)
 				return r, nil
 			}
-			r.elems = append(r.elems, args[1:]...)
+			if s.st != nil && s.st.dead {
+				return nil, x.writable(s, e)
+			}
+			if n+len(add) <= cap(s.elems) {
+				// fits: Go appends in place
+				if len(add) == 0 {
+					return s, nil
+				}
+				if s.st == nil && n == 0 && cap(s.elems) == 0 {
+					return s, nil
+				}
+				if err := x.writable(s, e); err != nil {
+					return nil, err
+				}
+				return vSeq{elems: append(s.elems, add...), typ: s.typ, st: s.st}, nil
+			}
+			// grows: a new allocation, whose capacity Go rounds up by an amount the executor
+			// does not model
+			if s.st != nil && !s.st.exact && !s.st.frozen {
+				s.st.dead = true
+			}
+			r := vSeq{elems: make([]value, 0, n+len(add)), typ: s.typ, st: &sstore{}}
+			r.elems = append(append(r.elems, s.elems...), add...)
 			return r, nil
+		}
+	case "make":
+		if len(args) >= 1 && len(e.Args) >= 2 {
+			tv, ok := x.info.Types[e.Args[0]]
+			if !ok || tv.Type == nil {
+				break
+			}
+			sl, isSl := tv.Type.Underlying().(*types.Slice)
+			if !isSl {
+				return nil, x.errf(e, "make of %s", tv.Type)
+			}
+			dims := []int64{}
+			for _, a := range args[1:] {
+				w, isW := a.(vWord)
+				if !isW {
+					return nil, x.errf(e, "make with a non-integer size")
+				}
+				d, isC := w.sconc()
+				if !isC || d < 0 || d > maxUnroll {
+					return nil, x.errf(e, "make with a size that is symbolic, negative or too large")
+				}
+				dims = append(dims, d)
+			}
+			ln, cp := dims[0], dims[0]
+			if len(dims) == 2 {
+				cp = dims[1]
+			}
+			if cp < ln || len(dims) > 2 {
+				return nil, x.errf(e, "make: len larger than cap: the code panics")
+			}
+			r := vSeq{elems: make([]value, ln, cp), typ: tv.Type, st: &sstore{exact: true}}
+			full := r.elems[:cp]
+			for i := range full {
+				z, err := x.zero(sl.Elem(), e)
+				if err != nil {
+					return nil, err
+				}
+				full[i] = z
+			}
+			return r, nil
+		}
+	case "copy":
+		if len(args) == 2 {
+			dst, okD := args[0].(vSeq)
+			if !okD || dst.array {
+				break
+			}
+			var src []value
+			switch t := args[1].(type) {
+			case vSeq:
+				src = t.elems
+			case vStr:
+				for _, b := range t.bs {
+					src = append(src, b)
+				}
+			default:
+				return nil, x.errf(e, "copy from %T", args[1])
+			}
+			k := min(len(dst.elems), len(src))
+			if k > 0 {
+				if err := x.writable(dst, e); err != nil {
+					return nil, err
+				}
+				copy(dst.elems, src) // Go's copy: correct for overlapping slices too
+			}
+			return constWord(intT, uint64(k)), nil
+		}
+	case "min", "max":
+		if len(args) >= 1 {
+			best := args[0]
+			for _, a := range args[1:] {
+				op := token.LSS
+				if name == "max" {
+					op = token.GTR
+				}
+				c, err := x.binary(op, a, best, e)
+				if err != nil {
+					return nil, err
+				}
+				cb, isB := c.(vBool)
+				if !isB {
+					return nil, x.errf(e, "%s of these operands", name)
+				}
+				best = mkCase(cb.f, a, best)
+			}
+			return best, nil
 		}
 	}
 	return nil, x.errf(e, "builtin %s", name)
@@ -1548,7 +2046,7 @@ func (x *sx) byteOrder(order, method string, e *ast.CallExpr, args []value) (val
 	return w, nil
 }
 
-func (x *sx) stdFunc(path, name string, e *ast.CallExpr, args []value) (value, error) {
+func (x *sx) stdFunc(path, name string, e *ast.CallExpr, args []value, pc *pcNode) (value, error) {
 	byteT := types.Typ[types.Uint8]
 	constStr := func(v value) (string, bool) {
 		s, ok := v.(vStr)
@@ -1636,34 +2134,192 @@ func (x *sx) stdFunc(path, name string, e *ast.CallExpr, args []value) (value, e
 				return x.eqBytes(a[:len(b)], b, e)
 			}
 		}
-	case "slices.ContainsFunc":
-		// slices.ContainsFunc(s, f) = IndexFunc(s, f) >= 0: the first i with f(s[i])
+	case "bytes.Compare":
 		if len(args) == 2 {
-			s, okS := args[0].(vSeq)
-			f, okF := args[1].(vFunc)
-			if okS && okF {
-				res := fFF
-				for k := len(s.elems) - 1; k >= 0; k-- {
-					r, err := x.call(f.body, f.closed, []value{s.elems[k]}, e)
-					if err != nil {
-						return nil, err
-					}
-					b, isB := r.(vBool)
-					if !isB {
-						return nil, x.errf(e, "predicate of slices.ContainsFunc does not return bool")
-					}
-					res = fIte(b.f, fTT, res)
-				}
-				return vBool{res}, nil
+			a, okA := byteSeq(args[0])
+			b, okB := byteSeq(args[1])
+			if okA && okB {
+				return x.compareBytes(a, b, e)
 			}
 		}
+	case "slices.Sort", "slices.SortFunc", "slices.SortStableFunc", "sort.Slice", "sort.SliceStable":
+		return x.sortModel(path+"."+name, e, args, pc)
 	default:
+		if stdSourcePkgs[path] {
+			return x.stdSource(path, name, e, args, pc)
+		}
 		return nil, x.errf(e, "call of %s.%s", path, name)
 	}
 	return nil, x.errf(e, "%s.%s with arguments the executor cannot evaluate (they must be constants, or the parameter's bytes where an address is built)", path, name)
 }
 
-func (x *sx) netipMethod(recv value, name string, e *ast.CallExpr, args []value) (value, error) {
+// compareBytes is bytes.Compare(a, b): the lexicographic three-way comparison, as a case
+// split  a < b → -1 | a == b → 0 | +1  on the common prefix, then on the lengths.
+func (x *sx) compareBytes(a, b []vWord, at ast.Node) (value, error) {
+	intT := types.Typ[types.Int]
+	k := min(len(a), len(b))
+	tail := constWord(intT, 0)
+	switch {
+	case len(a) < len(b):
+		tail = constWord(intT, ^uint64(0))
+	case len(a) > len(b):
+		tail = constWord(intT, 1)
+	}
+	if k == 0 {
+		return tail, nil
+	}
+	wa, wb := vWord{}, vWord{}
+	for j := k - 1; j >= 0; j-- {
+		wa.bits = append(wa.bits, a[j].bits...)
+		wb.bits = append(wb.bits, b[j].bits...)
+	}
+	lt, err := x.wideLess(wa, wb, at)
+	if err != nil {
+		return nil, err
+	}
+	eq, err := eqBits(wa.bits, wb.bits)
+	if err != nil {
+		return nil, x.errf(at, "%v", err)
+	}
+	return mkCase(lt, constWord(intT, ^uint64(0)), mkCase(eq, tail, constWord(intT, 1))), nil
+}
+
+// wideLess is a < b for two unsigned words of the same width (any multiple of 8), one of
+// which is constant.
+func (x *sx) wideLess(a, b vWord, at ast.Node) (string, error) {
+	consts := func(w vWord) ([]int64, bool) {
+		n := len(w.bits) / 8
+		cb := make([]int64, n)
+		for k := 0; k < n; k++ {
+			v, ok := vWord{bits: w.bits[(n-1-k)*8 : (n-k)*8]}.conc()
+			if !ok {
+				return nil, false
+			}
+			cb[k] = int64(v)
+		}
+		return cb, true
+	}
+	if cb, ok := consts(b); ok {
+		// a < c  =  !(a >= c)
+		f, err := geBytes(a, cb)
+		if err != nil {
+			return "", x.errf(at, "%v", err)
+		}
+		return bNot(f), nil
+	}
+	if ca, ok := consts(a); ok {
+		// c < b  =  b >= c+1
+		for k := len(ca) - 1; ; k-- {
+			if k < 0 {
+				return fFF, nil // c is the largest value
+			}
+			if ca[k] < 255 {
+				ca[k]++
+				break
+			}
+			ca[k] = 0
+		}
+		f, err := geBytes(b, ca)
+		if err != nil {
+			return "", x.errf(at, "%v", err)
+		}
+		return f, nil
+	}
+	return "", x.errf(at, "ordering comparison of two byte strings that both depend on the parameter")
+}
+
+// sortModel sorts a slice in place (initialisers only).  The result of every correct
+// sorting algorithm is the same as long as elements that compare equal are identical; the
+// model sorts stably by insertion, calling the less/cmp function on the live slice as the
+// real code does, and for the unstable variants rejects data on which the order of equal
+// elements could be seen.
+func (x *sx) sortModel(name string, e *ast.CallExpr, args []value, pc *pcNode) (value, error) {
+	if len(args) == 0 {
+		return nil, x.errf(e, "%s without arguments", name)
+	}
+	s, ok := args[0].(vSeq)
+	if !ok || s.array {
+		return nil, x.errf(e, "%s of something other than a slice", name)
+	}
+	if len(s.elems) > 1 {
+		if err := x.writable(s, e); err != nil {
+			return nil, err
+		}
+	}
+	intT := types.Typ[types.Int]
+	concBool := func(v value) (bool, error) {
+		b, isB := v.(vBool)
+		if !isB || (b.f != fTT && b.f != fFF) {
+			return false, x.errf(e, "%s: the order depends on the parameter", name)
+		}
+		return b.f == fTT, nil
+	}
+	var less func(i, j int) (bool, error)
+	switch name {
+	case "slices.Sort":
+		if len(args) != 1 {
+			return nil, x.errf(e, "%s arguments", name)
+		}
+		less = func(i, j int) (bool, error) {
+			r, err := x.binary(token.LSS, s.elems[i], s.elems[j], e)
+			if err != nil {
+				return false, err
+			}
+			return concBool(r)
+		}
+	case "slices.SortFunc", "slices.SortStableFunc":
+		if len(args) != 2 {
+			return nil, x.errf(e, "%s arguments", name)
+		}
+		less = func(i, j int) (bool, error) {
+			c, err := x.apply(args[1], []value{s.elems[i], s.elems[j]}, e, pc)
+			if err != nil {
+				return false, err
+			}
+			r, err := x.binary(token.LSS, c, constWord(intT, 0), e)
+			if err != nil {
+				return false, err
+			}
+			return concBool(r)
+		}
+	default: // sort.Slice, sort.SliceStable
+		if len(args) != 2 {
+			return nil, x.errf(e, "%s arguments", name)
+		}
+		less = func(i, j int) (bool, error) {
+			r, err := x.apply(args[1], []value{constWord(intT, uint64(i)), constWord(intT, uint64(j))}, e, pc)
+			if err != nil {
+				return false, err
+			}
+			return concBool(r)
+		}
+	}
+	for i := 1; i < len(s.elems); i++ {
+		for j := i; j > 0; j-- {
+			lt, err := less(j, j-1)
+			if err != nil {
+				return nil, err
+			}
+			if !lt {
+				break
+			}
+			s.elems[j], s.elems[j-1] = s.elems[j-1], s.elems[j]
+		}
+	}
+	stable := name == "slices.SortStableFunc" || name == "sort.SliceStable"
+	for i := 1; i < len(s.elems) && !stable; i++ {
+		lt, err := less(i-1, i)
+		if err != nil {
+			return nil, err
+		}
+		if !lt && !sameValue(s.elems[i-1], s.elems[i]) {
+			return nil, x.errf(e, "%s of elements that compare equal but differ: their order depends on the sorting algorithm", name)
+		}
+	}
+	return vTuple{}, nil
+}
+
+func (x *sx) netipMethod(recv value, name string, e ast.Node, args []value) (value, error) {
 	byteT := types.Typ[types.Uint8]
 	intT := types.Typ[types.Int]
 	switch r := recv.(type) {
@@ -1820,6 +2476,9 @@ func (x *sx) expr(e ast.Expr, fr *frame) (value, error) {
 				if op, bad := v.(vOpaque); bad {
 					return nil, x.errf(e, "use of %s", op.what)
 				}
+				if q, isSeq := v.(vSeq); isSeq && q.st != nil && q.st.dead {
+					return nil, x.errf(e, "use of the slice %s after an append that may have extended it in place (its capacity is not known to the executor)", e.Name)
+				}
 				return v, nil
 			}
 			if o.Parent() == x.pkg.Scope() || o.Pkg() != x.pkg {
@@ -1857,29 +2516,7 @@ func (x *sx) expr(e ast.Expr, fr *frame) (value, error) {
 		if err != nil {
 			return nil, err
 		}
-		switch e.Op {
-		case token.NOT:
-			if b, ok := v.(vBool); ok {
-				return vBool{bNot(b.f)}, nil
-			}
-		case token.XOR:
-			if w, ok := v.(vWord); ok {
-				r := vWord{typ: w.typ, signed: w.signed}
-				for _, b := range w.bits {
-					r.bits = append(r.bits, bitNot(b))
-				}
-				return r, nil
-			}
-		case token.ADD:
-			if w, ok := v.(vWord); ok {
-				return w, nil
-			}
-		case token.SUB:
-			if w, ok := v.(vWord); ok {
-				return x.binary(token.SUB, constWord(w.typ, 0), w, e)
-			}
-		}
-		return nil, x.errf(e, "unary operator %s", e.Op)
+		return x.unary(e.Op, v, e)
 	case *ast.BinaryExpr:
 		if e.Op == token.LAND || e.Op == token.LOR {
 			a, err := x.boolExpr(e.X, fr)
@@ -1890,7 +2527,7 @@ func (x *sx) expr(e ast.Expr, fr *frame) (value, error) {
 			if (e.Op == token.LAND && a == fFF) || (e.Op == token.LOR && a == fTT) {
 				return vBool{a}, nil
 			}
-			b, err := x.boolExpr(e.Y, fr)
+			b, err := x.boolExpr(e.Y, fr.assume(a, e.Op == token.LAND))
 			if err != nil {
 				return nil, err
 			}
@@ -1913,51 +2550,49 @@ func (x *sx) expr(e ast.Expr, fr *frame) (value, error) {
 		if err != nil {
 			return nil, err
 		}
-		switch q := s.(type) {
-		case vSeq:
-			i, err := x.index(e.Index, len(q.elems), fr)
-			if err != nil {
-				return nil, err
-			}
-			return q.elems[i], nil
-		case vStr:
-			i, err := x.index(e.Index, len(q.bs), fr)
-			if err != nil {
-				return nil, err
-			}
-			return q.bs[i], nil
+		iv, err := x.expr(e.Index, fr)
+		if err != nil {
+			return nil, err
 		}
-		return nil, x.errf(e, "index of something other than an array, a slice or a string")
+		return x.elemAt(s, iv, fr.pc, e)
 	case *ast.SliceExpr:
-		if e.Slice3 || e.Max != nil {
-			return nil, x.errf(e, "3-index slice")
-		}
 		s, err := x.expr(e.X, fr)
 		if err != nil {
 			return nil, err
 		}
-		n := 0
+		n, limit := 0, 0
 		switch q := s.(type) {
 		case vSeq:
-			n = len(q.elems)
+			n, limit = len(q.elems), len(q.elems)
+			if !q.array && q.st != nil && q.st.exact {
+				limit = cap(q.elems) // a slice may be re-sliced up to its capacity
+			}
 		case vStr:
-			n = len(q.bs)
+			n, limit = len(q.bs), len(q.bs)
+			if e.Slice3 {
+				return nil, x.errf(e, "3-index slice of a string")
+			}
 		default:
 			return nil, x.errf(e, "slice of something other than an array, a slice or a string")
 		}
-		lo, hi := 0, n
+		lo, hi, mx := 0, n, limit
 		if e.Low != nil {
-			if lo, err = x.index(e.Low, n+1, fr); err != nil {
+			if lo, err = x.index(e.Low, limit+1, fr); err != nil {
 				return nil, err
 			}
 		}
 		if e.High != nil {
-			if hi, err = x.index(e.High, n+1, fr); err != nil {
+			if hi, err = x.index(e.High, limit+1, fr); err != nil {
 				return nil, err
 			}
 		}
-		if lo > hi {
-			return nil, x.errf(e, "slice bounds [%d:%d]: the code panics", lo, hi)
+		if e.Max != nil {
+			if mx, err = x.index(e.Max, limit+1, fr); err != nil {
+				return nil, err
+			}
+		}
+		if lo > hi || hi > mx {
+			return nil, x.errf(e, "slice bounds [%d:%d:%d]: the code panics", lo, hi, mx)
 		}
 		switch q := s.(type) {
 		case vSeq:
@@ -1972,7 +2607,15 @@ func (x *sx) expr(e ast.Expr, fr *frame) (value, error) {
 			if q.array && et != nil {
 				rt = types.NewSlice(et)
 			}
-			return vSeq{elems: q.elems[lo:hi], typ: rt}, nil
+			if q.array {
+				// the slice shares the cells of an array VALUE: it is never written through
+				return vSeq{elems: q.elems[lo:hi:mx], typ: rt}, nil
+			}
+			if q.st == nil || !q.st.exact {
+				// capacity unknown: the result is cut to its length, re-slicing beyond is an error
+				return vSeq{elems: q.elems[lo:hi:hi], typ: rt, st: q.st}, nil
+			}
+			return vSeq{elems: q.elems[lo:hi:mx], typ: rt, st: q.st}, nil
 		case vStr:
 			return vStr{q.bs[lo:hi]}, nil
 		}
@@ -1983,19 +2626,40 @@ func (x *sx) expr(e ast.Expr, fr *frame) (value, error) {
 			}
 		}
 		sel := x.info.Selections[e]
-		if sel == nil || sel.Kind() != types.FieldVal {
-			return nil, x.errf(e, "selector %s is not a struct field", e.Sel.Name)
+		if sel == nil {
+			return nil, x.errf(e, "unresolved selector %s", e.Sel.Name)
+		}
+		if sel.Kind() == types.MethodExpr || sel.Kind() == types.MethodVal {
+			return x.methodValue(e, sel, fr)
 		}
 		v, err := x.expr(e.X, fr)
 		if err != nil {
 			return nil, err
 		}
-		for _, i := range sel.Index() {
+		var field func(v value, path []int) (value, error)
+		field = func(v value, path []int) (value, error) {
+			if len(path) == 0 {
+				return v, nil
+			}
+			if c, ok := v.(vCase); ok {
+				l, err := field(c.a, path)
+				if err != nil {
+					return nil, err
+				}
+				r, err := field(c.b, path)
+				if err != nil {
+					return nil, err
+				}
+				return mkCase(c.cond, l, r), nil
+			}
 			st, ok := v.(vStruct)
-			if !ok || i >= len(st.fields) {
+			if !ok || path[0] >= len(st.fields) {
 				return nil, x.errf(e, "field %s of something that is not a struct value", e.Sel.Name)
 			}
-			v = st.fields[i]
+			return field(st.fields[path[0]], path[1:])
+		}
+		if v, err = field(v, sel.Index()); err != nil {
+			return nil, err
 		}
 		if op, bad := v.(vOpaque); bad {
 			return nil, x.errf(e, "use of %s", op.what)
@@ -2007,6 +2671,149 @@ func (x *sx) expr(e ast.Expr, fr *frame) (value, error) {
 		return x.callExpr(e, fr)
 	}
 	return nil, x.errf(e, "expression %T", e)
+}
+
+// elemAt is s[i].  An index that is a case split on the parameter (the result of a search)
+// selects arm by arm; an arm no address can reach (its condition contradicts the path) is
+// dropped, so that `i < n && s[i]…` does not trip over the i == n arm.
+func (x *sx) elemAt(s, i value, pc *pcNode, at ast.Node) (value, error) {
+	if c, ok := i.(vCase); ok {
+		pt, pf := pc.assume(c.cond, true), pc.assume(c.cond, false)
+		switch {
+		case pt != nil && pt.dead:
+			return x.elemAt(s, c.b, pf, at)
+		case pf != nil && pf.dead:
+			return x.elemAt(s, c.a, pt, at)
+		}
+		l, err := x.elemAt(s, c.a, pt, at)
+		if err != nil {
+			return nil, err
+		}
+		r, err := x.elemAt(s, c.b, pf, at)
+		if err != nil {
+			return nil, err
+		}
+		return mkCase(c.cond, l, r), nil
+	}
+	if c, ok := s.(vCase); ok {
+		l, err := x.elemAt(c.a, i, pc.assume(c.cond, true), at)
+		if err != nil {
+			return nil, err
+		}
+		r, err := x.elemAt(c.b, i, pc.assume(c.cond, false), at)
+		if err != nil {
+			return nil, err
+		}
+		return mkCase(c.cond, l, r), nil
+	}
+	w, ok := i.(vWord)
+	if !ok {
+		return nil, x.errf(at, "index is not an integer")
+	}
+	k, ok := w.sconc()
+	if !ok {
+		return nil, x.errf(at, "index depends on the parameter")
+	}
+	n := 0
+	switch q := s.(type) {
+	case vSeq:
+		n = len(q.elems)
+	case vStr:
+		n = len(q.bs)
+	default:
+		return nil, x.errf(at, "index of something other than an array, a slice or a string")
+	}
+	if k < 0 || k >= int64(n) {
+		return nil, x.errf(at, "index %d out of range [0,%d): the code panics", k, n)
+	}
+	if q, isSeq := s.(vSeq); isSeq {
+		return q.elems[k], nil
+	}
+	return s.(vStr).bs[k], nil
+}
+
+func (x *sx) unary(op token.Token, v value, e ast.Node) (value, error) {
+	if c, ok := v.(vCase); ok {
+		l, err := x.unary(op, c.a, e)
+		if err != nil {
+			return nil, err
+		}
+		r, err := x.unary(op, c.b, e)
+		if err != nil {
+			return nil, err
+		}
+		return mkCase(c.cond, l, r), nil
+	}
+	switch op {
+	case token.NOT:
+		if b, ok := v.(vBool); ok {
+			return vBool{bNot(b.f)}, nil
+		}
+	case token.XOR:
+		if w, ok := v.(vWord); ok {
+			r := vWord{typ: w.typ, signed: w.signed}
+			for _, b := range w.bits {
+				r.bits = append(r.bits, bitNot(b))
+			}
+			return r, nil
+		}
+	case token.ADD:
+		if w, ok := v.(vWord); ok {
+			return w, nil
+		}
+	case token.SUB:
+		if w, ok := v.(vWord); ok {
+			return x.binary(token.SUB, constWord(w.typ, 0), w, e)
+		}
+	}
+	return nil, x.errf(e, "unary operator %s", op)
+}
+
+// methodValue is T.m (the receiver becomes the first argument) or v.m (the receiver is
+// evaluated now and bound, as in Go) for a method of the package or of net/netip.
+func (x *sx) methodValue(e *ast.SelectorExpr, sel *types.Selection, fr *frame) (value, error) {
+	mo, ok := sel.Obj().(*types.Func)
+	if !ok {
+		return nil, x.errf(e, "selector %s is not a method", e.Sel.Name)
+	}
+	recvT := sel.Recv()
+	if _, isPtr := recvT.(*types.Pointer); isPtr {
+		return nil, x.errf(e, "method value through a pointer")
+	}
+	if _, isIface := recvT.Underlying().(*types.Interface); isIface {
+		return nil, x.errf(e, "method value of the interface %s", recvT)
+	}
+	if len(sel.Index()) != 1 {
+		return nil, x.errf(e, "method %s promoted from an embedded field", mo.Name())
+	}
+	if isNetip(recvT, "Addr") || isNetip(recvT, "Prefix") {
+		name := mo.Name()
+		if sel.Kind() == types.MethodExpr {
+			return vFunc{native: func(args []value, at ast.Node) (value, error) {
+				if len(args) == 0 {
+					return nil, x.errf(at, "method expression without a receiver")
+				}
+				return x.netipMethod(args[0], name, at, args[1:])
+			}}, nil
+		}
+		recv, err := x.expr(e.X, fr)
+		if err != nil {
+			return nil, err
+		}
+		return vFunc{native: func(args []value, at ast.Node) (value, error) { return x.netipMethod(recv, name, at, args) }}, nil
+	}
+	fb, err := x.declBody(mo, e)
+	if err != nil {
+		return nil, err
+	}
+	if sel.Kind() == types.MethodExpr {
+		return vFunc{body: fb}, nil
+	}
+	recv, err := x.expr(e.X, fr)
+	if err != nil {
+		return nil, err
+	}
+	return vFunc{body: fb, bound: []value{recv}}, nil
 }
 
 func (x *sx) compositeLit(e *ast.CompositeLit, fr *frame) (value, error) {
@@ -2063,7 +2870,10 @@ func (x *sx) compositeLit(e *ast.CompositeLit, fr *frame) (value, error) {
 			}
 			elems = append(elems, z)
 		}
-		return vSeq{elems: elems, typ: t, array: n >= 0}, nil
+		if n >= 0 {
+			return vSeq{elems: elems[:len(elems):len(elems)], typ: t, array: true}, nil
+		}
+		return vSeq{elems: elems[:len(elems):len(elems)], typ: t, st: &sstore{exact: true}}, nil
 	case *types.Struct:
 		z, err := x.zero(t, e)
 		if err != nil {
@@ -2098,6 +2908,29 @@ func (x *sx) compositeLit(e *ast.CompositeLit, fr *frame) (value, error) {
 
 // binary evaluates a non-short-circuit binary operator.
 func (x *sx) binary(op token.Token, a, b value, at ast.Node) (value, error) {
+	// a value that is a case split on the parameter: the operator is applied arm by arm
+	if ca, ok := a.(vCase); ok {
+		l, err := x.binary(op, ca.a, b, at)
+		if err != nil {
+			return nil, err
+		}
+		r, err := x.binary(op, ca.b, b, at)
+		if err != nil {
+			return nil, err
+		}
+		return mkCase(ca.cond, l, r), nil
+	}
+	if cb, ok := b.(vCase); ok {
+		l, err := x.binary(op, a, cb.a, at)
+		if err != nil {
+			return nil, err
+		}
+		r, err := x.binary(op, a, cb.b, at)
+		if err != nil {
+			return nil, err
+		}
+		return mkCase(cb.cond, l, r), nil
+	}
 	isCmp := op == token.EQL || op == token.NEQ
 	neg := func(f string, err error) (value, error) {
 		if err != nil {
